@@ -78,8 +78,9 @@ Definition final (P : params) (ds : list directive) : pcfg := fst (play ds (pini
 (* what a script did, for inspection while writing Examples *)
 Definition pcs_of (c : pcfg) : list (tid * ppc) := map (fun x => (fst x, pc (snd x))) (c_thr c).
 
-Definition par (init core mx cap rn rd : Z) : params := mkPar init core mx cap rn rd true true 100%nat.
-Definition par_pinned (init core mx cap rn rd : Z) (fa fb : bool) : params := mkPar init core mx cap rn rd fa fb 100%nat.
+Definition par (init core mx cap rn rd : Z) : params := mkPar init core mx cap rn rd true true 100%nat true.
+Definition par_pinned (init core mx cap rn rd : Z) (fa fb : bool) : params := mkPar init core mx cap rn rd fa fb 100%nat true.
+Definition par_pinned3 (init core mx cap rn rd : Z) (fa fb fc : bool) : params := mkPar init core mx cap rn rd fa fb 100%nat fc.
 
 (* ---------------------------------------------------------------- the schedules of the two repaired defects *)
 Local Open Scope nat_scope.
@@ -127,3 +128,19 @@ Definition wit_hang :=
    DCall 3 OpShutdown; DRun 3 40;
    DRun 101 60;
    DRun 100 60].
+
+(* (c) C10: initGo = coreGo = maxGo 1, queue 1.  The worker (100) is inside task 0, task 1 fills the queue, a third
+   Submit (tid 3, task 2) goes three times round its spin loop before the worker makes room.  Before commit
+   4ac6152 task 2 then carried 4 taskWrapper layers (one per round; unboundedly many after a long wait - stack
+   overflow when it ran); now it carries one. *)
+Definition wit_spin_P := par 1 1 1 1 0 1.
+Definition wit_spin_P_pinned := par_pinned3 1 1 1 1 0 1 true true false.
+Definition wit_spin :=
+  [DCall 2 OpStart; DRun 2 200; DRunTo 100 WParked;
+   DCall 1 (OpSubmit 0 false); DRun 1 100; DRunTo 100 WUser;
+   DCall 1 (OpSubmit 1 false); DRun 1 100;
+   DCall 3 (OpSubmit 2 false); DRun 3 2; DRunTo 3 SbIf2; DRun 3 1; DRunTo 3 SbIf2; DRun 3 1; DRunTo 3 SbIf2; DRun 3 1;
+   DFinish 100; DRunTo 100 WSelect; DRunTo 100 WUser;
+   DRun 3 100;
+   DFinish 100; DRunTo 100 WSelect; DRunTo 100 WUser;
+   DFinish 100; DRunTo 100 WParked].
